@@ -347,10 +347,10 @@ class Pervaporation:
                 * 1000
             )
             condensation_heat_2 = (
-                self.mixture.first_component.get_vaporisation_heat(
+                self.mixture.second_component.get_vaporisation_heat(
                     conditions.permeate_temperature
                 )
-                / self.mixture.first_component.molecular_weight
+                / self.mixture.second_component.molecular_weight
                 * 1000
             )
             cooling_heat_1 = self.mixture.first_component.get_cooling_heat(
@@ -1073,10 +1073,10 @@ class Pervaporation:
                 * 1000
             )
             condensation_heat_2 = (
-                self.mixture.first_component.get_vaporisation_heat(
+                self.mixture.second_component.get_vaporisation_heat(
                     conditions.permeate_temperature
                 )
-                / self.mixture.first_component.molecular_weight
+                / self.mixture.second_component.molecular_weight
                 * 1000
             )
             cooling_heat_1 = self.mixture.first_component.get_cooling_heat(
